@@ -5,8 +5,10 @@ CHECK_DEADLOCK FALSE
 CONSTANTS
   MaxN = 4
   MaxUnits = 2
-  MaxEdges = 3
+  MaxEdges = 2
   MaxEdgesBig = 1
-  Salt = 0
-  EmitMod = 7
+  Salt = 1
+  EmitMod = 2
   CheckSplit = FALSE
+  KindN = 2
+  FewSubsets = TRUE
